@@ -121,8 +121,11 @@ def rand_pattern(rng, name, maxblocks=6):
 def rand_config(rng, maxcache=None, idbase=1000, maxblocks=6):
     nph = rng.choice([1, 1, 2, 3])
     phen, name = [], 1
+    shared = rng.random() < 0.35        # pattern names are unique within a phenomenon only: reuse them across phenomena
     for k in range(1, nph + 1):
         ps = []
+        if shared:
+            name = 1
         for _ in range(rng.choice([1, 1, 2])):
             ps.append(rand_pattern(rng, name, maxblocks))
             name += 1
